@@ -14,7 +14,6 @@
 (* additionally evaluated by TLC on every state of every accepted prefix.           *)
 EXTENDS DSControl, Json, IOUtils
 Traces == JsonDeserialize(IOEnv.TRACE_FILE)
-TraceCfgs == {Traces[t].cfg : t \in 1..Len(Traces)}
 BigT == 1000000
 VARIABLES tid, l, bad
 tvars == <<vars, tid, l, bad>>
@@ -36,7 +35,7 @@ Verdict(e) ==
   ELSE "ok"
 
 TraceInit == /\ tid \in 1..Len(Traces) /\ l = 1 /\ bad = "ok"
-             /\ Init /\ cfg = Traces[tid].cfg
+             /\ cfg = Traces[tid].cfg /\ InitRest
 
 TraceStep ==
   /\ l <= Len(Ev) /\ bad = "ok"
